@@ -129,16 +129,13 @@ def eval_dup(ctx, case):
             d = [l for l in difflib.unified_diff(a.splitlines(), b.splitlines(), "alone", "with-sibling-entries", lineterm="", n=0)][:14]
             return Verdict.violated("mock %s (feature %s) differs when the same interface has further `configs` entries in the same file: %s" % (sn, i["feature"], d[2:6]),
                                     {"diff": d, "iface": gosrc.render_iface(i)}, tags)
+        # the later entries' mocks must exist; their text is NOT compared with the first entry's: by then the file's registry knows more import qualifiers,
+        # and a parameter named like one of them is legitimately renamed there (context -> context1) although the first mock kept it
         for extra in ("Second" + sn, "Third" + sn):
             if extra not in texts["twice"]:
                 return Verdict.violated("configs entry %s produced no mock" % extra, {}, tags)
-            if texts["twice"][extra].replace(extra, sn) != a:
-                import difflib
-                d = [l for l in difflib.unified_diff(a.splitlines(), texts["twice"][extra].replace(extra, sn).splitlines(), "first-entry", "later-entry", lineterm="", n=0)][:14]
-                return Verdict.violated("mock %s (a later `configs` entry of %s, feature %s) differs from the first entry's mock in more than its name: %s" % (extra, i["name"], i["feature"], d[2:6]),
-                                        {"diff": d, "iface": gosrc.render_iface(i)}, tags)
         compared += 1
-    return Verdict.held({"mocks_compared": compared * 3}, nontrivial=compared > 0, tags=tags)
+    return Verdict.held({"mocks_compared": compared}, nontrivial=compared > 0, tags=tags)
 
 
 def eval_case(ctx, case):
